@@ -11,7 +11,8 @@
     spanAt spans pos                  = the span the cursor is on (both ends inclusive).
 
   `treeNodes` is the independent reading of a syntax tree: the catalogue of its name-bearing
-  nodes with the range the tree gives for the lexeme.  A tree is *faithful* to a text's spans
+  nodes with the range the tree gives for the lexeme (rune columns), converted to LSP
+  coordinates with the lines of the file's text.  A tree is *faithful* to a text's spans
   when the two coincide; the theorems of HL.Props.C09 assume it, the driver checks it on every
   case and classifies every way in which the real parser's trees fall short of it.
 -/
@@ -46,6 +47,9 @@ structure FileT where
   path : Path
   tree : Journal
   spans : List Span
+  /-- the lines of the file's text (`[]`: positions are read without a text, columns as they
+      are — enough for files without characters outside the BMP) -/
+  lns : Lines := []
 deriving Repr, Inhabited
 
 structure Workspace where
@@ -64,6 +68,12 @@ def Workspace.WF (ws : Workspace) : Prop := ws.root.path ≠ "" ∧ (ws.files.ma
 def resolvedOf (ws : Workspace) (order : List Path) : Resolved :=
   ⟨some ws.root.tree, ws.members.map fun f => (f.path, f.tree), order⟩
 
+/-- The text the server's `fileMappers` hand out for every path of the workspace. -/
+def textsOf (ws : Workspace) : Texts := fun p =>
+  match ws.files.find? (fun f => f.path == p) with
+  | some f => f.lns
+  | none => []
+
 /-! ### Reading a syntax tree -/
 
 /-- A name-bearing node: the range is in the tree's own coordinates (1-based line, column). -/
@@ -76,7 +86,7 @@ deriving Repr, DecidableEq, Inhabited, BEq
 
 /-- The tree gives where a name starts; the lexeme is as long as the name. -/
 def lexeme (start : Pos) (name : Bytes) : ARange :=
-  ⟨start.line, start.col, start.line, start.col + utf16Len name⟩
+  ⟨start.line, start.col, start.line, start.col + runeLen name⟩
 
 def tokenRange (r : Rng) : ARange := ⟨r.start.line, r.start.col, r.stop.line, r.stop.col⟩
 
@@ -95,7 +105,7 @@ def payeeNode (tx : Transaction) : List TNode :=
   let payee := if tx.payee == [] then tx.description else tx.payee
   if payee == [] then [] else
     let col := tx.date.range.stop.col + 1 + (if tx.status == .none then 0 else 2)
-    [⟨.payee, payee, ⟨tx.date.range.start.line, col, tx.date.range.start.line, col + utf16Len payee⟩, false⟩]
+    [⟨.payee, payee, ⟨tx.date.range.start.line, col, tx.date.range.start.line, col + runeLen payee⟩, false⟩]
 
 def txNodes (tx : Transaction) : List TNode := payeeNode tx ++ tx.postings.flatMap postingNodes
 
@@ -111,25 +121,43 @@ def directiveNodes : Directive → List TNode
 def treeTNodes (j : Journal) : List TNode :=
   j.transactions.flatMap txNodes ++ j.directives.flatMap directiveNodes
 
-def TNode.toSpan (n : TNode) : Span := ⟨n.kind, n.name, toLsp n.range, n.decl⟩
+def TNode.toSpan (lns : Lines) (n : TNode) : Span := ⟨n.kind, n.name, toLsp lns n.range, n.decl⟩
 
-def treeNodes (j : Journal) : List Span := (treeTNodes j).map TNode.toSpan
+def treeNodes (lns : Lines) (j : Journal) : List Span := (treeTNodes j).map (TNode.toSpan lns)
 
-/-- A node's range is one line of a real file: 1-based, within `uint32` after the shift. -/
-def TNode.sane (n : TNode) : Bool :=
+/-- A node's range is one line of a real file: 1-based, within `uint32` after the shift; and
+    where the text has that line, the range lies inside it and the line is shorter than 2³²
+    UTF-16 units. -/
+def TNode.sane (lns : Lines) (n : TNode) : Bool :=
   decide (1 ≤ n.range.sl) && n.range.sl == n.range.el && decide (n.range.sl ≤ 4294967296) &&
-  decide (1 ≤ n.range.sc) && decide (n.range.sc ≤ n.range.ec) && decide (n.range.ec ≤ 4294967296)
+  decide (1 ≤ n.range.sc) && decide (n.range.sc ≤ n.range.ec) && decide (n.range.ec ≤ 4294967296) &&
+  (match lns[n.range.sl - 1]? with
+   | some ln => decide (n.range.ec - 1 ≤ ln.length) && decide (HL.Text.u16len ln < 4294967296)
+   | none => true)
 
 /-- The tree says exactly what the text's spans say. -/
-def faithful (j : Journal) (spans : List Span) : Prop :=
-  (∀ n ∈ treeTNodes j, n.sane = true) ∧ ∀ s, s ∈ treeNodes j ↔ s ∈ spans
+def faithful (lns : Lines) (j : Journal) (spans : List Span) : Prop :=
+  (∀ n ∈ treeTNodes j, n.sane lns = true) ∧ ∀ s, s ∈ treeNodes lns j ↔ s ∈ spans
 
-def faithfulB (j : Journal) (spans : List Span) : Bool :=
-  (treeTNodes j).all TNode.sane &&
-  (treeNodes j).all (fun s => spans.any fun t => decide (t = s)) &&
-  spans.all (fun s => (treeNodes j).any fun t => decide (t = s))
+def faithfulB (lns : Lines) (j : Journal) (spans : List Span) : Bool :=
+  (treeTNodes j).all (TNode.sane lns) &&
+  (treeNodes lns j).all (fun s => spans.any fun t => decide (t = s)) &&
+  spans.all (fun s => (treeNodes lns j).any fun t => decide (t = s))
 
-def Workspace.faithful (ws : Workspace) : Prop := ∀ f ∈ ws.files, HL.Spec.Occ.faithful f.tree f.spans
+def Workspace.faithful (ws : Workspace) : Prop := ∀ f ∈ ws.files, HL.Spec.Occ.faithful f.lns f.tree f.spans
+
+/-- The cursor is a position of the text: where the text has the cursor's line, the character
+    is the UTF-16 length of a whole number of the line's chars (not past the end of the line,
+    not inside a surrogate pair). -/
+def cursorOK (lns : Lines) (p : LPos) : Prop :=
+  ∀ ln, lns[p.line]? = some ln → ∃ k, k ≤ ln.length ∧ p.char = HL.Text.u16len (ln.take k)
+
+/-- Decidable form (the driver judges only requests whose cursor passes it; LSP 3.17 leaves a
+    character beyond the line's length to the server, which "defaults back to the line length"). -/
+def cursorOKB (lns : Lines) (p : LPos) : Bool :=
+  match lns[p.line]? with
+  | some ln => HL.Text.u16len (ln.take (HL.Text.takeU16 ln p.char)) == p.char
+  | none => true
 
 /-- No cursor position lies on two different spans. -/
 def separated (spans : List Span) : Prop :=
